@@ -93,6 +93,19 @@ using srv_prio = b::server<
     b::no_gap_service_for_gatt_servers
 >;
 
+// the same characteristic UUID in two services, the second service with the higher priority (by-UUID lookups must tell them apart)
+using srv_dup_uuid = b::server<
+    b::higher_outgoing_priority< b::service_uuid16< 0x3900 > >,
+    svc16< 0x3800,
+        chr16< 0x3801, b::bind_characteristic_value< std::uint8_t, &v8a >, b::notify >,
+        chr16< 0x3802, b::bind_characteristic_value< std::uint8_t, &v8b >, b::indicate >
+    >,
+    svc16< 0x3900,
+        chr16< 0x3801, b::bind_characteristic_value< std::uint8_t, &v8c >, b::notify >
+    >,
+    b::no_gap_service_for_gatt_servers
+>;
+
 using srv_nine = b::server<
     svc16< 0x3200,
         chr16< 0x3201, b::bind_characteristic_value< std::uint8_t, &v8a >, b::notify >,
